@@ -220,6 +220,97 @@ func init() {
 		}})
 }
 
+func init() {
+	register(&Rule{ID: "C07.R3", Props: []string{"C07", "C10", "C05"}, Min: 3, Needs: NeedMain,
+		Doc: "receive buffers do not escape: the buffer a transport loop passes to Read / ReadFromUDP is reused by the next read, so it (or a slice of it) may only be parsed, appended from or copied from — never handed to a handler, a goroutine, a closure or a channel (the packet handed on is always a fresh copy)",
+		Run: func(r *R) {
+			sp := r.w.Pkg("tars/transport")
+			if sp == nil {
+				r.AnchorMissing("package tars/transport")
+				return
+			}
+			for _, fn := range r.w.Funcs(sp) {
+				eachInstr(fn, func(in ssa.Instruction) {
+					c, ok := in.(*ssa.Call)
+					if !ok {
+						return
+					}
+					isRead := (c.Call.IsInvoke() && c.Call.Method.Name() == "Read" && isNetConn(c.Call.Value.Type())) || funcID(calleeObj(&c.Call)) == "net.(UDPConn).ReadFromUDP"
+					if !isRead {
+						return
+					}
+					inLoop := false
+					for _, l := range loopsOf(fn) {
+						if l.body[c.Block()] {
+							inLoop = true
+						}
+					}
+					if !inLoop {
+						return
+					}
+					buf := c.Call.Args[len(c.Call.Args)-1]
+					if c.Call.IsInvoke() {
+						buf = c.Call.Args[0]
+					}
+					buf = strip(buf, false)
+					// all aliases: the buffer value and every Slice of it
+					aliases := map[ssa.Value]bool{buf: true}
+					eachInstr(fn, func(j ssa.Instruction) {
+						if sl, ok := j.(*ssa.Slice); ok && aliases[strip(sl.X, false)] {
+							aliases[sl] = true
+						}
+					})
+					bad := ""
+					eachInstr(fn, func(j ssa.Instruction) {
+						if j == ssa.Instruction(c) {
+							return
+						}
+						switch x := j.(type) {
+						case ssa.CallInstruction:
+							cc := x.Common()
+							bn := builtinName(cc)
+							for ai, a := range cc.Args {
+								if !aliases[strip(a, false)] {
+									continue
+								}
+								switch {
+								case bn == "copy" && ai == 1, bn == "append" && ai == 1, bn == "len", bn == "cap":
+								case cc.IsInvoke() && cc.Method.Name() == "ParsePackage":
+								case cc.IsInvoke() && cc.Method.Name() == "Read", funcID(calleeObj(cc)) == "net.(UDPConn).ReadFromUDP":
+								default:
+									if _, isCall := j.(*ssa.Call); isCall && bn == "" {
+										bad = "passed to " + shortInstr(j)
+									} else if bn == "" {
+										bad = "handed to a goroutine/deferred call"
+									} else {
+										bad = "used as argument " + bn
+									}
+								}
+							}
+						case *ssa.MakeClosure:
+							for _, b := range x.Bindings {
+								if aliases[strip(b, false)] {
+									bad = "captured by a closure"
+								}
+							}
+						case *ssa.Send:
+							if aliases[strip(x.X, false)] {
+								bad = "sent on a channel"
+							}
+						case *ssa.Store:
+							if aliases[strip(x.Val, false)] {
+								if _, isAlloc := x.Addr.(*ssa.Alloc); !isAlloc {
+									bad = "stored into " + pathOf(x.Addr)
+								}
+							}
+						}
+					})
+					r.Check(bad == "", fname(fn), "receive buffer does not escape", c.Pos(), "the read buffer is only parsed / copied from", "the reused receive buffer is %s: the bytes are overwritten by the next read while the handler (or the handle-timeout path) still decodes them — one request is answered twice with another's identity, another never", bad)
+				})
+			}
+		}})
+}
+
 func checkRecvLoop(r *R, fn *ssa.Function, fullC, lessC int64) {
 	where := fname(fn)
 	var readCall, parseCall, appendCall, copyCall *ssa.Call
